@@ -1,7 +1,9 @@
 import Qryn.Proofs.Router
 import Qryn.Proofs.AuthConfig
+import Qryn.Http.Exposure
 import Qryn.Gen.Routes
 import Qryn.Gen.AuthConfig
+import Qryn.Gen.Exposure
 /-! # C20 — with basic auth configured no route is reachable without the credentials
 
 Property theorems only. Models: `Qryn.Http.authDecision` (= `BasicAuthMiddleware`, after the A34 fix),
@@ -489,6 +491,68 @@ theorem unconfigured_chain (env : Env) (file : Creds) (rest : List Middleware)
     mainChain (installedCreds env file) rest = rest := by
   rw [(not_installed_iff env file).mpr h]; rfl
 
+/-! ### every listener, every mux, every MODE -/
+
+open Qryn.Gen.Exposure in
+/-- **exposure_ok** (decide over `Gen.Exposure`). In the whole module (non-test code) the only calls that open a
+    listener or serve on one — by NAME, whatever the package or receiver: `Listen*`, `Serve`, `ServeTLS`,
+    `ListenAndServe*`, `Accept*`, `New(Unstarted|TLS)Server` — are `net.Listen` + `http.Serve` in `main.httpStart` and in
+    the reader's own `httpStart`, and both serve their router parameter (`Gen.Routes`: the router that carries the
+    middlewares); the default mux only ever gets that same router under `/` and is never served (no serve call with a
+    `nil`/`DefaultServeMux` handler, no mention of `http.DefaultServeMux`), no import registers handlers on it by side
+    effect (`net/http/pprof`, `expvar`, `x/net/trace`), there is no `http.Server` literal; the only calls of `main()`
+    that receive the router outside an `if` are `RegisterCommonRoutes` and `httpStart`, and the conditional ones are
+    guarded by the MODE alone: `writer.Init` for all/writer/"", `reader.Init` and `view.Init` for all/reader/"". -/
+theorem exposure_ok :
+    listenCalls = ["main.go:httpStart:http.Serve", "main.go:httpStart:net.Listen",
+                   "reader/main.go:httpStart:http.Serve", "reader/main.go:httpStart:net.Listen"] ∧
+    listenCalls = Qryn.Gen.Routes.listenSites ∧
+    serveHandlers = ["main.go:httpStart:http.Serve(handler server)", "reader/main.go:httpStart:http.Serve(handler server)"] ∧
+    defaultMux = ["main.go:httpStart:http.Handle(/, server)", "reader/main.go:httpStart:http.Handle(/, server)"] ∧
+    nilServes = [] ∧ sideImports = [] ∧ serverLits = [] ∧
+    unconditionalRouterCalls = ["commonroutes.RegisterCommonRoutes", "httpStart"] ∧
+    modeGuards = [("writer.Init", ["all", "writer", ""]), ("reader.Init", ["all", "reader", ""]), ("view.Init", ["all", "reader", ""])] ∧
+    Qryn.Gen.Routes.routes.all (fun r => (initOf r.src).isSome || r.src == "shared/commonroutes.RegisterCommonRoutes") = true := by
+  decide +kernel
+
+/-- `production_router_guarded` for ANY list of route specs (any subset / any mode's table) -/
+theorem spec_table_guarded (specs : List RouteSpec) (login pass : Bytes) (rest : List Middleware) (hs : Nat → Handler)
+    (clean : Bytes → Bool) (req : Req) (h : authDecision login pass req.auth ≠ .pass) (hc : clean req.path = true)
+    (i : Nat) (spec : RouteSpec) (hi : specs[i]? = some spec)
+    (hp : matchParts spec.pathPrefix spec.parts req.path = true) (hm : req.method ∈ spec.methods) :
+    let R : Router := ⟨tableOf specs hs, authMw login pass :: rest, clean⟩
+    (serve R req).effects = [] ∧ ((serve R req).status = 401 ∨ (serve R req).status = 400) := by
+  intro R
+  have hmem : spec.toRoute (hs i) ∈ tableOf specs hs := by
+    simp only [tableOf, List.mem_map]
+    refine ⟨(spec, i), ?_, rfl⟩
+    rw [List.mem_iff_getElem?]
+    exact ⟨i, by simp [List.getElem?_zipIdx, hi]⟩
+  have hacc : (spec.toRoute (hs i)).accepts req := ⟨hp, .inr hm⟩
+  have := no_handler_without_creds login pass rest (tableOf specs hs) clean req h
+  exact ⟨this.1, (this.2 hc ⟨_, hmem, hacc⟩).2.1⟩
+
+/-- **configured_any_mode.** For EVERY value of MODE (all, writer, reader, the empty string, anything else), every
+    configuration in which a login and a password were supplied by some source, every route that `main()` registers
+    in that mode (per the regenerated guards) and every registered method: a request that does not carry the
+    effective credentials is answered 401/400 and nothing runs. -/
+theorem configured_any_mode (mode : String) (env : Env) (file : Creds)
+    (hu : supplied .user env file) (hp : supplied .pass env file)
+    (rest : List Middleware) (hs : Nat → Handler) (clean : Bytes → Bool) (req : Req)
+    (h : authDecision (effective env file).user (effective env file).pass req.auth ≠ .pass) (hc : clean req.path = true)
+    (i : Nat) (spec : RouteSpec)
+    (hi : (routesIn Qryn.Gen.Exposure.modeGuards mode Qryn.Gen.Routes.routes)[i]? = some spec)
+    (hpm : matchParts spec.pathPrefix spec.parts req.path = true) (hm : req.method ∈ spec.methods) :
+    let R : Router := ⟨tableOf (routesIn Qryn.Gen.Exposure.modeGuards mode Qryn.Gen.Routes.routes) hs,
+                       mainChain (installedCreds env file) rest, clean⟩
+    (serve R req).effects = [] ∧ ((serve R req).status = 401 ∨ (serve R req).status = 400) := by
+  intro R
+  have hR : R = ⟨tableOf (routesIn Qryn.Gen.Exposure.modeGuards mode Qryn.Gen.Routes.routes) hs,
+      authMw (effective env file).user (effective env file).pass :: rest, clean⟩ := by
+    simp only [R, (both_supplied_installed env file hu hp).1, mainChain]
+  rw [hR]
+  exact spec_table_guarded _ _ _ rest hs clean req h hc i spec hi hpm hm
+
 end config
 
 /-! ## non-vacuity -/
@@ -548,6 +612,13 @@ example : ((serve R1 (rq "GET" ready none)).status, (serve R1 (rq "GET" ready no
 example : (serve R1 (rq "GET" ready (some (basicWord ++ sp :: [90, 110, 85, 54, 99, 88, 65, 61])))).effects =
     [.handler 0, .backend 0] := by decide
 example : (serve R1 (rq "GET" ready (some (basicWord ++ sp :: [90, 110, 85, 54, 90, 110, 65, 61])))).status = 401 := by decide
+-- modes: MODE=reader has no ingest route, MODE=writer no query route, an unknown mode only the common routes
+example : ((routesIn Qryn.Gen.Exposure.modeGuards "reader" Qryn.Gen.Routes.routes).any (·.tpl == "/loki/api/v1/push"),
+           (routesIn Qryn.Gen.Exposure.modeGuards "writer" Qryn.Gen.Routes.routes).any (·.tpl == "/loki/api/v1/push"),
+           (routesIn Qryn.Gen.Exposure.modeGuards "writer" Qryn.Gen.Routes.routes).any (·.tpl == "/loki/api/v1/labels"),
+           (routesIn Qryn.Gen.Exposure.modeGuards "gateway" Qryn.Gen.Routes.routes).map (·.tpl),
+           routesIn Qryn.Gen.Exposure.modeGuards "all" Qryn.Gen.Routes.routes == Qryn.Gen.Routes.routes) =
+    (false, true, false, ["/ready", "/config", "/metrics", "/api/status/buildinfo"], true) := by decide +kernel
 end cfgExamples
 end examples
 
